@@ -6,6 +6,7 @@ CLAUSES = {"NeverAhead", "NoNegativeDelta", "Conservation", "IdleCycleSilent"}
 
 def run(res, work, tier, seed):
     vlib.stage_specs(work)
+    model(res, work, tier)
     vlib.run_core_family(res, work, "c01", tier, seed, parts=12 if tier == "quick" else 14, clauses=CLAUSES)
     res.rule = ("executions of the real counter / report-pass code under the controlled scheduler: exhaustive DFS over the thread choices at the atomic steps of "
                 "the delta computation (load prev, load curr, CAS, reporter call) for {2 increments} || pass || pass, plain and cached reporter, plain ints and "
@@ -15,3 +16,11 @@ def run(res, work, tier, seed):
         "schedule points are the verif-tagged hooks; code between two hooks of one goroutine is executed atomically w.r.t. the other scenario goroutines",
         "observable events are logged by the goroutine performing them while it is the only scenario goroutine running (total order = trace order)",
     ]
+
+
+def model(res, work, tier):
+    vlib.tallycore(work, res, "C01 micro: 2 increments || pass || pass", deadlock=True)
+    vlib.tallycore(work, res, "DevNonAtomicDelta", expect="*", DevNonAtomicDelta="TRUE")
+    if tier == "thorough":
+        vlib.tallycore(work, res, "C01: sub-scope cycle, 2 apps, pass (4.7M states)", Script="ScriptC07b", Apps='{"a1","a2"}', Passers='{"p1"}', NObj=4, deadlock=True, timeout=3000)
+        vlib.tallycore(work, res, "C01: root incs, loop with 2 ticks, Close", Script="ScriptC08", Passers="{}", Closers='{"z1"}', HasLoop="TRUE", MaxTicks=2, deadlock=True)
